@@ -117,5 +117,168 @@ fn console_vxw_c15() {
         }
     }
     }
+    // ---- several requests on ONE kept-alive connection: every request is judged by the limit of its OWN method/URL
+    n += keep_alive_sequences(&h, audit.as_ref(), low, large);
     println!("VXW-DONE {}", n);
+}
+
+// ------------------------------------------------------------------------------------------------ keep-alive sequences
+// 2 and 3 requests on one HTTP/1.1 connection, exempt (E) and non-exempt (N) method/URL pairs in every order, every request with a
+// body around the limit that applies to IT: N: limit-1, limit, limit+1 (limit = 100 KiB); E: 100 KiB+1 and 200 KiB+5 (far below its
+// own 100 MiB limit, above the limit of its neighbours), each declared by Content-Length or sent chunked.
+// Oracle per request (the statement, applied to each request of the connection): over its limit => 4xx and nothing of it at the
+// host; at or under => the host's 200 and the body intact at the host. The statement does not promise that a connection survives
+// a refusal: when the proxy closes the connection after a request that had to be refused, the rest of the sequence is not sent
+// (nothing may reach the host then either).
+#[derive(Clone)]
+struct Step {
+    exempt: bool,
+    method: &'static str,
+    target: &'static str,
+    size: usize,
+    chunks: Option<Vec<usize>>,
+}
+
+impl Step {
+    fn show(&self, limit: usize) -> String {
+        format!("{} {} [{}, limit {}] body {} bytes ({}) => {}", self.method, self.target, if self.exempt { "exempt upload" } else { "non-exempt" }, limit, self.size,
+            match &self.chunks { None => "Content-Length".to_string(), Some(c) => format!("chunked {:?}", c) },
+            if self.size > limit { "must be refused (4xx, nothing relayed)" } else { "must be relayed intact" })
+    }
+}
+
+/// bytes of a recorded request on the wire when it is framed by Content-Length (header lines as `name: value`)
+fn vx_wire_len(q: &RecReq) -> Option<usize> {
+    if vx_framing(&q.headers, false) == Framing::Chunked {
+        return None;
+    }
+    let mut len = q.method.len() + 1 + q.target.len() + 1 + q.version.len() + 2;
+    for (name, v) in q.headers.iter() {
+        len += name.len() + 2 + v.len() + 2;
+    }
+    Some(len + 2 + q.body.len())
+}
+
+fn run_sequence(h: &Harness, audit: Option<&AuditMap>, real: bool, steps: &[Step], low: usize, large: usize, bodies: &std::collections::HashMap<usize, Vec<u8>>) -> (u64, u64) {
+    let ip = if real { "127.0.0.1" } else { "168.63.129.16" };
+    let mut conn: Option<Conn> = None;
+    let mut rc: Option<RawClient> = None;
+    if real {
+        rc = Some(h.connect_real(&h.ps, Some((audit.unwrap(), true))));
+    } else {
+        conn = Some(h.connect_with(&h.ps, &Attribution::full(true, ip, 80)));
+    }
+    let mut problems: Vec<String> = Vec::new();
+    let mut seen: Vec<String> = Vec::new();
+    let mut previous_over = false;
+    let mut closed = false;
+    for (k, st) in steps.iter().enumerate() {
+        let limit = if st.exempt { large } else { low };
+        let over = st.size > limit;
+        if closed {
+            seen.push(format!("#{}: not sent", k + 1));
+            continue;
+        }
+        let data = bodies.get(&st.size).unwrap();
+        let body = match &st.chunks { None => ReqBody::Len(data.clone()), Some(c) => ReqBody::Chunked(data.clone(), c.clone()) };
+        let wire = vx_request_bytes(st.method, st.target, &[("Host".to_string(), ip.to_string()), ("Content-Type".to_string(), "application/octet-stream".to_string())], &body);
+        let cl: &mut RawClient = if real { rc.as_mut().unwrap() } else { &mut conn.as_mut().unwrap().client };
+        cl.send(wire);
+        let r = cl.recv(false);
+        let (bytes, reqs) = h.host.take();
+        let status = vx_status(&r);
+        seen.push(format!("#{}: client status {}{}, {} bytes / {} request(s) at the host", k + 1, status, match &r { Err(e) => format!(" ({})", e), Ok(_) => String::new() }, bytes, reqs.len()));
+        if previous_over && r.is_err() {
+            // the proxy gave the connection up after the refusal
+            closed = true;
+            if bytes != 0 || !reqs.is_empty() {
+                problems.push(format!("request #{} (sent on the connection the proxy closed after a refusal): {} bytes / {} request(s) at the host, want nothing", k + 1, bytes, reqs.len()));
+            }
+            continue;
+        }
+        if over {
+            if !(400..500).contains(&status) { problems.push(format!("request #{}: client status {} ({:?}), want 4xx", k + 1, status, r.as_ref().err())); }
+            if bytes != 0 || !reqs.is_empty() { problems.push(format!("request #{}: {} bytes / {} request(s) relayed to the host, want nothing", k + 1, bytes, reqs.len())); }
+        } else {
+            if status != 200 { problems.push(format!("request #{}: client status {} ({:?}), want the host's 200", k + 1, status, r.as_ref().err())); }
+            match reqs.first() {
+                Some(q) if reqs.len() == 1 => {
+                    if q.body != *data { problems.push(format!("request #{}: body at the host {} bytes [{}], sent {} bytes [{}]", k + 1, q.body.len(), vx_hex(&q.body), st.size, vx_hex(data))); }
+                    if q.method != st.method || q.target != st.target { problems.push(format!("request #{}: host got {} {}", k + 1, q.method, q.target)); }
+                    if let Some(w) = vx_wire_len(q) {
+                        if w != bytes { problems.push(format!("request #{}: {} bytes at the host, the relayed request accounts for {}", k + 1, bytes, w)); }
+                    }
+                }
+                _ => problems.push(format!("request #{}: {} requests at the host, want 1", k + 1, reqs.len())),
+            }
+        }
+        previous_over = over;
+    }
+    let (bytes, reqs) = if real { h.finish_real(rc.take().unwrap()) } else { h.finish(conn.take().unwrap()) };
+    if bytes != 0 || !reqs.is_empty() {
+        problems.push(format!("after the last answer: {} more bytes / {} more request(s) at the host, want nothing", bytes, reqs.len()));
+    }
+    if !problems.is_empty() {
+        vx_fail(serde_json::json!({"property": "C15",
+            "input": {"path": if real { "real handle_new_tcp_connection, connection attributed through the kernel audit map" } else { "handler behind the replicated limit wiring, constructed connection context" },
+                "one_keep_alive_connection": steps.iter().map(|s| s.show(if s.exempt { large } else { low })).collect::<Vec<String>>(), "destination": format!("{}:{}", ip, if real { h.host.port } else { 80 })},
+            "got": {"problems": problems, "observed": seen}, "want": "every request of the connection judged by the limit of its own method/URL"}));
+    }
+    let unsent = seen.iter().filter(|s| s.ends_with("not sent")).count() as u64;
+    (steps.len() as u64 - unsent, unsent)
+}
+
+fn keep_alive_sequences(h: &Harness, audit: Option<&AuditMap>, low: usize, large: usize) -> u64 {
+    h.set_key(Some(vx_key()));
+    let n_pairs: [(&'static str, &'static str); 5] = [("POST", "/machine?comp=upload"), ("POST", "/vmAgentLog"), ("PUT", "/machine/?comp=telemetrydata"), ("PUT", "/machine/x/y"), ("POST", "/machine/?comp=telemetrydata&x=1")];
+    let e_pairs: [(&'static str, &'static str); 4] = [("PUT", "/vmAgentLog"), ("POST", "/machine/?comp=telemetrydata"), ("PUT", "/VMAGENTLOG"), ("POST", "/Machine/?comp=TelemetryData")];
+    let n_sizes = [low - 1, low, low + 1];
+    let e_sizes = [low + 1, 2 * low + 5];
+    let chunkings: [Vec<usize>; 3] = [vec![1000], vec![65536, 1, 30000], vec![low - 1, 1, 1, 1]];
+    let mut bodies: std::collections::HashMap<usize, Vec<u8>> = std::collections::HashMap::new();
+    for s in n_sizes.iter().chain(e_sizes.iter()) {
+        bodies.insert(*s, data(*s));
+    }
+    // (exempt, size) choices of one position
+    let mut choices: Vec<(bool, usize)> = Vec::new();
+    for s in n_sizes { choices.push((false, s)); }
+    for s in e_sizes { choices.push((true, s)); }
+    let mut sequences: Vec<Vec<Step>> = Vec::new();
+    let mut rot = 0usize;
+    for len in [2usize, 3] {
+        // framing patterns: bit k of the pattern = request k is chunked
+        let patterns: Vec<usize> = if len == 2 { vec![0b00, 0b01, 0b10, 0b11] } else { vec![0b000, 0b111, 0b010, 0b101] };
+        let total = choices.len().pow(len as u32);
+        for code in 0..total {
+            for pat in patterns.iter() {
+                let mut steps = Vec::new();
+                let mut c = code;
+                for k in 0..len {
+                    let (exempt, size) = choices[c % choices.len()];
+                    c /= choices.len();
+                    rot += 1;
+                    let (method, target) = if exempt { e_pairs[rot % e_pairs.len()] } else { n_pairs[rot % n_pairs.len()] };
+                    let chunks = if pat >> k & 1 == 1 { Some(chunkings[(rot / 7) % chunkings.len()].clone()) } else { None };
+                    steps.push(Step { exempt, method, target, size, chunks });
+                }
+                sequences.push(steps);
+            }
+        }
+    }
+    let mut n = 0u64;
+    let (mut runs, mut sent, mut unsent) = (0u64, 0u64, 0u64);
+    for steps in sequences.iter() {
+        // the real listener path where the kernel audit map exists (all sequences); the replicated wiring: all sequences when it
+        // is the only path, else the sequences of two requests
+        let on: Vec<bool> = match audit { Some(_) => if steps.len() == 2 { vec![true, false] } else { vec![true] }, None => vec![false] };
+        for real in on {
+            n += steps.len() as u64;
+            let (a, b) = run_sequence(h, audit, real, steps, low, large, &bodies);
+            runs += 1;
+            sent += a;
+            unsent += b;
+        }
+    }
+    println!("VXW-NOTE keep-alive sequences: {} connections, {} requests sent, {} not sent because the proxy closed the connection after a request it had to refuse", runs, sent, unsent);
+    n
 }
